@@ -770,6 +770,14 @@ func (p *Peer) onData(f []byte) {
 	if f[6]&0x7F == 9 && f[7] == 9 {
 		p.S9F9Seen.Add(1)
 	}
+	hold := f[6]&0x80 != 0 && (p.Mute.Load() || (p.RejectAll.Load() && p.s1))
+	if hold {
+		// held BEFORE the call is marked on the wire: a scenario that waits for OnWire and then
+		// takes the held primaries must find this one
+		p.hmu.Lock()
+		p.Held = append(p.Held, f)
+		p.hmu.Unlock()
+	}
 	tok, _, ok := parseBody(f[14:])
 	var c *Call
 	if ok {
@@ -785,15 +793,10 @@ func (p *Peer) onData(f []byte) {
 		// anonymous async data send, counted by the data-sent counter like any other
 		p.env.record(Event{Typ: 'W', G: p.Gen, C: -1, K: KAsync})
 	}
-	if f[6]&0x80 != 0 { // W-bit primary
-		switch {
-		case p.RejectAll.Load() && !p.s1:
+	if f[6]&0x80 != 0 && !hold { // W-bit primary
+		if p.RejectAll.Load() && !p.s1 {
 			go func() { _ = p.RejectF(f) }()
-		case p.Mute.Load() || p.RejectAll.Load():
-			p.hmu.Lock()
-			p.Held = append(p.Held, f)
-			p.hmu.Unlock()
-		default:
+		} else {
 			go func() { _ = p.Reply(f) }()
 		}
 	}
